@@ -132,6 +132,39 @@ func Relay(cur realm, name string, n int) string {
 }
 `
 
+const hooksSrc = `package hooks
+
+var hook func() string
+var fired int
+
+func Register(cur realm, f func() string) { hook = f }
+
+func Fire(cur realm) string {
+	fired++
+	if hook == nil {
+		return "none"
+	}
+	return hook()
+}
+`
+
+// a MsgRun package that ships its own gnomod.toml (what "gnokey maketx run <dir>" sends) and tries to leave one of its
+// closures behind in a realm
+func hookScript(k int) []*std.MemFile {
+	body := fmt.Sprintf(`package main
+
+import "gno.land/r/verif/hooks"
+
+func main(cur realm) {
+	hooks.Register(cross(cur), func() string { return "from-script-%d" })
+}
+`, k)
+	return []*std.MemFile{
+		{Name: "gnomod.toml", Body: "module = \"gno.land/r/verif/scratch\"\ngno = \"0.9\"\n"},
+		{Name: "main.gno", Body: body},
+	}
+}
+
 const onlyTestSrc = `package onlytest
 
 import "testing"
@@ -249,6 +282,7 @@ func main() {
 	pkgs := []appenv.Pkg{
 		{Path: "gno.land/r/verif/list", Files: map[string]string{"list.gno": listSrc}},
 		{Path: "gno.land/p/verif/util", Files: map[string]string{"util.gno": utilSrc}},
+		{Path: "gno.land/r/verif/hooks", Files: map[string]string{"hooks.gno": hooksSrc}},
 		{Path: "gno.land/r/verif/caller", Files: map[string]string{"caller.gno": callerSrc}},
 		{Path: "gno.land/r/verif/onlytest", Files: map[string]string{"x_test.gno": onlyTestSrc}},
 	}
@@ -292,7 +326,11 @@ func main() {
 			kind := rng.Intn(100)
 			counter++
 			switch {
-			case b < 3 && t == 0 && deployStep < len(pkgs): // deployments early, in order (caller needs list and util)
+			case t == 0 && b == nblocks-3 && deployStep >= 3: // a script tries to leave a closure behind in a realm ...
+				msgs = append(msgs, vm.NewMsgRun(signer.Addr, nil, hookScript(counter%3)))
+			case t == 0 && b >= nblocks-2 && deployStep >= 3: // ... and later blocks make the realm call whatever it holds
+				msgs = append(msgs, vm.NewMsgCall(signer.Addr, nil, "gno.land/r/verif/hooks", "Fire", nil))
+			case b < 5 && t == 0 && deployStep < len(pkgs): // deployments early, in order (caller needs list and util)
 				msgs = append(msgs, appenv.AddPkgMsg(signer.Addr, pkgs[deployStep]))
 				deployStep++
 				gw = 150_000_000
@@ -304,8 +342,12 @@ func main() {
 				msgs = append(msgs, vm.NewMsgCall(signer.Addr, nil, "gno.land/r/verif/list", "Drop", []string{fmt.Sprintf("k%d", rng.Intn(6))}))
 			case kind < 70:
 				msgs = append(msgs, vm.NewMsgCall(signer.Addr, nil, "gno.land/r/verif/caller", "Relay", []string{fmt.Sprintf("r%d", rng.Intn(4)), fmt.Sprint(rng.Intn(50))}))
-			case kind < 85:
+			case kind < 78:
 				msgs = append(msgs, vm.NewMsgRun(signer.Addr, nil, []*std.MemFile{{Name: "main.gno", Body: runScript(counter % 3)}}))
+			case kind < 82:
+				msgs = append(msgs, vm.NewMsgRun(signer.Addr, nil, hookScript(counter%3)))
+			case kind < 85:
+				msgs = append(msgs, vm.NewMsgCall(signer.Addr, nil, "gno.land/r/verif/hooks", "Fire", nil))
 			case kind < 92: // redeploy an existing path (must fail the same way everywhere)
 				msgs = append(msgs, appenv.AddPkgMsg(signer.Addr, pkgs[rng.Intn(2)]))
 				gw = 150_000_000
